@@ -3,7 +3,7 @@ package ref
 import "testing"
 
 func TestSizeText(t *testing.T) {
-	ok := map[string]uint64{"0": 0, "10": 10, " 10 ": 10, "1 000": 1000, "1_000_000": 1000000, "1 000 kB": 1000000, "20KiB": 20480, "20 KiB": 20480, "20 _ KiB  ": 20480, "007": 7, "1 B  ": 1,
+	ok := map[string]uint64{"0": 0, "10": 10, " 10 ": 10, "1 000": 1000, "1_000_000": 1000000, "1\u00a0000 kB": 1000000, "20KiB": 20480, "20 KiB": 20480, "20 _\u00a0KiB  ": 20480, "007": 7, "1 B  ": 1,
 		"18446744073709551615": 1<<64 - 1, "16EiB": 0, "15 EiB": 15 << 60, "0 YiB": 0, "0ZB": 0, "18 EB": 18000000000000000000, "00000000000000000000000001": 1, "1 7": 17}
 	for s, w := range ok {
 		v := ParseSizeText(s)
@@ -17,12 +17,12 @@ func TestSizeText(t *testing.T) {
 			t.Errorf("%q: %+v want %d", s, v, w)
 		}
 	}
-	for _, s := range []string{"", " ", "_1", " 1", "-1", "+1", "1.5", "1e3", "1 kb", "1 KB", "1 Kib", "1 iB", "1 k B", "1kB1", "18446744073709551616", "19 EB", "1 ZB", "1YiB", "1 B x", "x", "1\t", "1\n", "１", "1 B_", "1\xa0"} {
+	for _, s := range []string{"", " ", "_1", "\u00a01", "-1", "+1", "1.5", "1e3", "1 kb", "1 KB", "1 Kib", "1 iB", "1 k B", "1kB1", "18446744073709551616", "19 EB", "1 ZB", "1YiB", "1 B x", "x", "1\t", "1\n", "１", "1 B_", "1\xa0"} {
 		if v := ParseSizeText(s); v.OK() && !v.Dangling {
 			t.Errorf("%q accepted: %+v", s, v)
 		}
 	}
-	for _, s := range []string{"1_", "1 ", "1 _ ", "1_ "} {
+	for _, s := range []string{"1_", "1\u00a0", "1 _ ", "1_ "} {
 		if v := ParseSizeText(s); !v.Dangling || !v.OK() {
 			t.Errorf("%q should be dangling: %+v", s, v)
 		}
